@@ -739,6 +739,422 @@ example : parseTop {} (.obj [jmem "type" (jstr "Point"),
 
 end Geo
 
+namespace Geo
+
+/-! ## decoding: the reference reading of a document -/
+
+/-- what a GeoJSON document says: type, children in order, x and y of every position -/
+inductive RefShape where
+  | point (xy : Rat × Rat)
+  | lineString (ps : List (Rat × Rat))
+  | polygon (rings : List (List (Rat × Rat)))
+  | coll (kind : CollKind) (children : List RefShape)
+  | feature (base : RefShape)
+
+def xyOf (p : Pos) : Rat × Rat := (p.p.x, p.p.y)
+
+mutual
+/-- the shape of a parsed object. A SimplePoint has the Point shape, a Rect the shape of its
+    five-position Polygon. -/
+def shapeOf : Obj → RefShape
+  | .point pos _ => .point (xyOf pos)
+  | .spoint pos => .point (xyOf pos)
+  | .lineString _ ps _ => .lineString (ps.map xyOf)
+  | .polygon _ rings _ => .polygon (rings.map (fun r => r.map xyOf))
+  | .rectO _ lo hi => .polygon [(rectRing lo hi).map xyOf]
+  | .coll kind cs _ _ => .coll kind (shapeOfL cs)
+  | .feature b _ => .feature (shapeOf b)
+  | .circle c _ => .feature (.point (xyOf c))
+def shapeOfL : List Obj → List RefShape
+  | [] => []
+  | c :: cs => shapeOf c :: shapeOfL cs
+end
+
+/-- all or nothing -/
+def optAll {α : Type} : List (Option α) → Option (List α)
+  | [] => some []
+  | a :: as =>
+    match a, optAll as with
+    | some x, some xs => some (x :: xs)
+    | _, _ => none
+
+/-- the positions of a line string / ring / MultiPoint as written: x,y = the `val` fields of
+    the first two numbers of each position -/
+def readPositions (c : JVal) : Option (List (Rat × Rat)) := optAll (c.elems.map posXY)
+def readRings (c : JVal) : Option (List (List (Rat × Rat))) := optAll (c.elems.map readPositions)
+
+/-- the obvious last-key-wins reading of an object of type `ty` with reserved members `k` -/
+def refTyped (k : Keys) (rf : JVal → Option RefShape) (ty : String) : Option RefShape :=
+  match ty with
+  | "Point" => k.coordinates.bind (fun c => (posXY c).map .point)
+  | "LineString" => k.coordinates.bind (fun c => (readPositions c).map .lineString)
+  | "Polygon" => k.coordinates.bind (fun c => (readRings c).map .polygon)
+  | "MultiPoint" => k.coordinates.bind (fun c =>
+      (readPositions c).map (fun ps => .coll .multiPoint (ps.map .point)))
+  | "MultiLineString" => k.coordinates.bind (fun c =>
+      (optAll (c.elems.map readPositions)).map (fun ls => .coll .multiLineString (ls.map .lineString)))
+  | "MultiPolygon" => k.coordinates.bind (fun c =>
+      (optAll (c.elems.map readRings)).map (fun pgs => .coll .multiPolygon (pgs.map .polygon)))
+  | "GeometryCollection" =>
+    match k.geometries with
+    | some (.arr items) => (optAll (items.map rf)).map (.coll .geometryCollection)
+    | _ => none
+  | "FeatureCollection" =>
+    match k.features with
+    | some (.arr items) => (optAll (items.map rf)).map (.coll .featureCollection)
+    | _ => none
+  | "Feature" => k.geometry.bind (fun g => (rf g).map .feature)
+  | _ => none
+
+/-- reference reader (fuel as in `parse`) -/
+def refShapeF : Nat → JVal → Option RefShape
+  | 0, _ => none
+  | n+1, v =>
+    match v with
+    | .obj ms =>
+      match (scanKeys ms).type with
+      | some (.str _ ty) => refTyped (scanKeys ms) (refShapeF n) ty
+      | _ => none
+    | _ => none
+
+def refShape (v : JVal) : Option RefShape := refShapeF (v.depth + 1) v
+
+theorem shapeOfL_eq : ∀ (cs : List Obj), shapeOfL cs = cs.map shapeOf
+  | [] => rfl
+  | c :: cs => by simp only [shapeOfL, List.map_cons, shapeOfL_eq cs]
+
+theorem optAll_map_some {α β : Type} {f : α → Option β} {g : α → β} :
+    ∀ (l : List α), (∀ x ∈ l, f x = some (g x)) → optAll (l.map f) = some (l.map g)
+  | [], _ => rfl
+  | a :: as, h => by
+    simp only [List.map_cons, optAll, h a List.mem_cons_self,
+      optAll_map_some as (fun x hx => h x (List.mem_cons_of_mem _ hx))]
+
+theorem Forall2.map_eq {α β γ : Type} {R : α → β → Prop} {g : β → γ} {h : α → γ} {l : List α} {ys : List β}
+    (hf : Forall2 R l ys) (hr : ∀ x y, x ∈ l → R x y → g y = h x) : ys.map g = l.map h := by
+  induction hf with
+  | nil => rfl
+  | cons hxy _ ih =>
+    simp only [List.map_cons, hr _ _ List.mem_cons_self hxy,
+      ih (fun x y hx => hr x y (List.mem_cons_of_mem _ hx))]
+
+/-- reading the x,y of a well-formed position gives what the parser stored -/
+theorem wfPos_read {p : JVal} (h : wfPos p = true) : posXY p = some (xyOf (posOfJ p)) :=
+  (wfPos_posXY h).1
+
+theorem readPositions_wf {c : JVal} (h : ∀ p ∈ c.elems, wfPos p = true) :
+    readPositions c = some (c.elems.map (fun p => xyOf (posOfJ p))) :=
+  optAll_map_some _ (fun p hp => wfPos_read (h p hp))
+
+theorem readRings_wf {c : JVal} (h : ∀ r ∈ c.elems, ∀ p ∈ r.elems, wfPos p = true) :
+    readRings c = some (c.elems.map (fun r => r.elems.map (fun p => xyOf (posOfJ p)))) :=
+  optAll_map_some _ (fun r hr => readPositions_wf (h r hr))
+
+theorem wfLine_elems {c : JVal} (h : wfLine c = true) : ∀ p ∈ c.elems, wfPos p = true := by
+  obtain ⟨ps, rfl, _, hps⟩ := wfLine_inv h
+  exact hps
+
+theorem wfPoly_elems {c : JVal} (h : wfPoly c = true) : ∀ r ∈ c.elems, ∀ p ∈ r.elems, wfPos p = true := by
+  obtain ⟨rings, rfl, _, hr⟩ := wfPoly_inv h
+  intro r hr' p hp
+  obtain ⟨ps, rfl, _, hps, _⟩ := wfRing_inv (hr r hr')
+  exact hps p hp
+
+theorem wfArrayOf_elems {f : JVal → Bool} {c : JVal} (h : wfArrayOf f c = true) : ∀ x ∈ c.elems, f x = true := by
+  obtain ⟨xs, rfl, hxs⟩ := wfArrayOf_inv h
+  exact hxs
+
+/-! ### the shape of what the per-type bodies return -/
+
+theorem pointCase_shape {o : POpts} {k : Keys} {x : Obj} (h : pointCase o k = .ok x) :
+    ∃ c, k.coordinates = some c ∧ shapeOf x = .point (xyOf (posOfJ c)) := by
+  unfold pointCase at h
+  split at h
+  · cases h
+  · rename_i c hc
+    split at h
+    · cases h
+    · split at h
+      · cases h
+      · rename_i pos ex hp
+        refine ⟨c, hc, ?_⟩
+        rw [← parsePointCoords_pos hp]
+        simp only at h
+        split at h <;> split at h <;> cases h <;> rfl
+
+theorem lineCase_shape {o : POpts} {k : Keys} {x : Obj} (h : lineCase o k = .ok x) :
+    ∃ c, k.coordinates = some c ∧ shapeOf x = .lineString (c.elems.map (fun p => xyOf (posOfJ p))) := by
+  unfold lineCase at h
+  split at h
+  · cases h
+  · rename_i c hc
+    split at h
+    · cases h
+    · rename_i ps ex hp
+      split at h
+      · cases h
+      · simp only at h
+        split at h
+        · cases h
+        · cases h
+          refine ⟨c, (reqArray_ok hc).1, ?_⟩
+          simp only [shapeOf, parseLineCoords_pos hp, List.map_map]
+          rfl
+
+theorem rect_shape_eq {p0 p1 p2 p3 p4 : Pos} (hr : isRectRing [p0, p1, p2, p3, p4] = true)
+    (hok : ringOK [p0, p1, p2, p3, p4] = true) :
+    (rectRing p0 p2).map xyOf = [p0, p1, p2, p3, p4].map xyOf := by
+  simp only [isRectRing, Bool.and_eq_true, decide_eq_true_eq] at hr
+  obtain ⟨⟨⟨⟨⟨⟨⟨⟨⟨⟨⟨⟨f0, f1⟩, f2⟩, f3⟩, f4⟩, _⟩, e1⟩, e2⟩, _⟩, _⟩, e3⟩, e4⟩, _⟩ := hr
+  simp only [ringOK, List.head?_cons, List.getLast?_cons_cons, List.getLast?_singleton,
+    Bool.and_eq_true, beq_iff_eq] at hok
+  have e5 : p0.p = p4.p := hok.2.2
+  have x3 : p3.p.x = p0.p.x := by rw [e4, ← e5]
+  simp only [rectRing, List.map_cons, List.map_nil, xyOf]
+  rw [← e5, ← e2, e1, e3, x3]
+
+theorem polyCase_shape' {o : POpts} {k : Keys} {x : Obj} (h : polyCase o k = .ok x) :
+    ∃ c, k.coordinates = some c ∧
+      shapeOf x = .polygon (c.elems.map (fun r => r.elems.map (fun p => xyOf (posOfJ p)))) := by
+  obtain ⟨c, rings, ex, hc, hp, hok, rfl⟩ := polyCase_shape h
+  refine ⟨c, hc, ?_⟩
+  have hrings := parsePolyCoords_pos hp
+  have hgoal : rings.map (fun r => r.map xyOf) =
+      c.elems.map (fun r => r.elems.map (fun p => xyOf (posOfJ p))) := by
+    rw [hrings, List.map_map]
+    apply List.map_congr_left
+    intro r _
+    simp only [Function.comp, ringOfJ, List.map_map]
+    rfl
+  rcases polyObj_cases o rings (withMembers ex k) with h | ⟨p0, p1, p2, p3, p4, hr, _, _, hrect, h⟩
+  · rw [h]; simp only [shapeOf, hgoal]
+  · rw [h]
+    simp only [shapeOf]
+    rw [← hgoal, hr]
+    rw [hr] at hok
+    simp only [List.all_cons, List.all_nil, Bool.and_true] at hok
+    simp only [List.map_cons, List.map_nil, rect_shape_eq hrect hok]
+
+theorem multiPointCase_shape {o : POpts} {k : Keys} {x : Obj} (h : multiPointCase o k = .ok x) :
+    ∃ c, k.coordinates = some c ∧
+      shapeOf x = .coll .multiPoint (c.elems.map (fun p => .point (xyOf (posOfJ p)))) := by
+  unfold multiPointCase at h
+  split at h
+  · cases h
+  · rename_i c hc
+    split at h
+    · cases h
+    · rename_i cs hcs
+      simp only at h
+      split at h
+      · cases h
+      · cases h
+        refine ⟨c, (reqArray_ok hc).1, ?_⟩
+        simp only [mkColl, shapeOf, shapeOfL_eq, List.map_map]
+        congr 1
+        exact (mapM_except_ok _ _ _ hcs).map_eq (fun p y _ hy => by
+          simp only [Function.comp, shapeOf]
+          rw [parsePointCoords_pos (p := p) (ex := y.2) (pos := y.1) hy])
+
+theorem lineChild_shape {o : POpts} {v : JVal} {x : Obj} (h : lineChild o v = .ok x) :
+    shapeOf x = .lineString (v.elems.map (fun p => xyOf (posOfJ p))) := by
+  rw [lineChild_eq] at h
+  split at h
+  · cases h
+  · rename_i ps ex hp
+    split at h
+    · cases h
+    · cases h
+      simp only [shapeOf, parseLineCoords_pos hp, List.map_map]
+      rfl
+
+theorem polyChild_shape {o : POpts} {v : JVal} {x : Obj} (h : polyChild o v = .ok x) :
+    shapeOf x = .polygon (v.elems.map (fun r => r.elems.map (fun p => xyOf (posOfJ p)))) := by
+  rw [polyChild_eq] at h
+  split at h
+  · cases h
+  · rename_i rings ex hp
+    split at h
+    · cases h
+    · cases h
+      simp only [shapeOf, parsePolyCoords_pos hp, List.map_map]
+      congr 1
+      apply List.map_congr_left
+      intro r _
+      simp only [Function.comp, ringOfJ, List.map_map]
+      rfl
+
+theorem multiLineCase_shape {o : POpts} {k : Keys} {x : Obj} (h : multiLineCase o k = .ok x) :
+    ∃ c, k.coordinates = some c ∧
+      shapeOf x = .coll .multiLineString
+        (c.elems.map (fun l => .lineString (l.elems.map (fun p => xyOf (posOfJ p))))) := by
+  unfold multiLineCase at h
+  split at h
+  · cases h
+  · rename_i c hc
+    split at h
+    · cases h
+    · rename_i cs hcs
+      simp only at h
+      split at h
+      · cases h
+      · cases h
+        refine ⟨c, (reqArray_ok hc).1, ?_⟩
+        simp only [mkColl, shapeOf, shapeOfL_eq]
+        congr 1
+        exact (mapM_except_ok _ _ _ hcs).map_eq (fun p y _ hy => lineChild_shape hy)
+
+theorem multiPolyCase_shape {o : POpts} {k : Keys} {x : Obj} (h : multiPolyCase o k = .ok x) :
+    ∃ c, k.coordinates = some c ∧
+      shapeOf x = .coll .multiPolygon
+        (c.elems.map (fun pg => .polygon (pg.elems.map (fun r => r.elems.map (fun p => xyOf (posOfJ p)))))) := by
+  unfold multiPolyCase at h
+  split at h
+  · cases h
+  · rename_i c hc
+    split at h
+    · cases h
+    · rename_i cs hcs
+      simp only at h
+      split at h
+      · cases h
+      · cases h
+        refine ⟨c, (reqArray_ok hc).1, ?_⟩
+        simp only [mkColl, shapeOf, shapeOfL_eq]
+        congr 1
+        exact (mapM_except_ok _ _ _ hcs).map_eq (fun p y _ hy => polyChild_shape hy)
+
+theorem refShapeF_of_type {n : Nat} {ms : List (String × String × JVal)} {r ty : String}
+    (h : (scanKeys ms).type = some (.str r ty)) :
+    refShapeF (n+1) (.obj ms) = refTyped (scanKeys ms) (refShapeF n) ty := by
+  simp only [refShapeF, h]
+
+/-- decoding, for every fuel -/
+theorem wf_decoded_fuel (o : POpts) (v : JVal) (h : WellFormed v) :
+    ∀ (n : Nat) (x : Obj), parse o n v = .ok x → refShapeF n v = some (shapeOf x) := by
+  induction h with
+  | point ms r c h hc hw =>
+    intro n x hx
+    obtain ⟨m, _, rfl, _⟩ := parse_ok_isObj hx
+    rw [parse_of_type h] at hx
+    obtain ⟨c', hc', hs⟩ := pointCase_shape hx
+    rw [hc] at hc'; cases hc'
+    rw [refShapeF_of_type h, hs]
+    simp only [refTyped, hc, Option.bind_some, wfPos_read hw, Option.map_some]
+  | lineString ms r c h hc hw =>
+    intro n x hx
+    obtain ⟨m, _, rfl, _⟩ := parse_ok_isObj hx
+    rw [parse_of_type h] at hx
+    obtain ⟨c', hc', hs⟩ := lineCase_shape hx
+    rw [hc] at hc'; cases hc'
+    rw [refShapeF_of_type h, hs]
+    simp only [refTyped, hc, Option.bind_some, readPositions_wf (wfLine_elems hw), Option.map_some]
+  | polygon ms r c h hc hw =>
+    intro n x hx
+    obtain ⟨m, _, rfl, _⟩ := parse_ok_isObj hx
+    rw [parse_of_type h] at hx
+    obtain ⟨c', hc', hs⟩ := polyCase_shape' hx
+    rw [hc] at hc'; cases hc'
+    rw [refShapeF_of_type h, hs]
+    simp only [refTyped, hc, Option.bind_some, readRings_wf (wfPoly_elems hw), Option.map_some]
+  | multiPoint ms r c h hc hw =>
+    intro n x hx
+    obtain ⟨m, _, rfl, _⟩ := parse_ok_isObj hx
+    rw [parse_of_type h] at hx
+    obtain ⟨c', hc', hs⟩ := multiPointCase_shape hx
+    rw [hc] at hc'; cases hc'
+    rw [refShapeF_of_type h, hs]
+    simp only [refTyped, hc, Option.bind_some, readPositions_wf (wfArrayOf_elems hw), Option.map_some,
+      List.map_map]
+    rfl
+  | multiLineString ms r c h hc hw =>
+    intro n x hx
+    obtain ⟨m, _, rfl, _⟩ := parse_ok_isObj hx
+    rw [parse_of_type h] at hx
+    obtain ⟨c', hc', hs⟩ := multiLineCase_shape hx
+    rw [hc] at hc'; cases hc'
+    rw [refShapeF_of_type h, hs]
+    have := optAll_map_some (f := readPositions) (g := fun l => l.elems.map (fun p => xyOf (posOfJ p)))
+      c.elems (fun l hl => readPositions_wf (wfLine_elems (wfArrayOf_elems hw l hl)))
+    simp only [refTyped, hc, Option.bind_some, this, Option.map_some, List.map_map]
+    rfl
+  | multiPolygon ms r c h hc hw =>
+    intro n x hx
+    obtain ⟨m, _, rfl, _⟩ := parse_ok_isObj hx
+    rw [parse_of_type h] at hx
+    obtain ⟨c', hc', hs⟩ := multiPolyCase_shape hx
+    rw [hc] at hc'; cases hc'
+    rw [refShapeF_of_type h, hs]
+    have := optAll_map_some (f := readRings)
+      (g := fun pg => pg.elems.map (fun r => r.elems.map (fun p => xyOf (posOfJ p))))
+      c.elems (fun pg hpg => readRings_wf (wfPoly_elems (wfArrayOf_elems hw pg hpg)))
+    simp only [refTyped, hc, Option.bind_some, this, Option.map_some, List.map_map]
+    rfl
+  | geometryCollection ms r items h hc hw ih =>
+    intro n x hx
+    obtain ⟨m, _, rfl, _⟩ := parse_ok_isObj hx
+    rw [parse_of_type h] at hx
+    obtain ⟨items', cs, hg, hcs, rfl⟩ := geomCollCase_ok hx
+    rw [hc] at hg; cases hg
+    rw [refShapeF_of_type h]
+    have hf := parseList_ok o m items cs hcs
+    have h1 : optAll (items.map (refShapeF m)) = some (cs.map shapeOf) := by
+      have : ∀ (l : List JVal) (ys : List Obj), (∀ a ∈ l, a ∈ items) →
+          Forall2 (fun a y => parse o m a = .ok y) l ys →
+          optAll (l.map (refShapeF m)) = some (ys.map shapeOf) := by
+        intro l ys hsub hl
+        induction hl with
+        | nil => rfl
+        | @cons a y as ys' hay _ ih' =>
+          simp only [List.map_cons, optAll, ih a (hsub a List.mem_cons_self) m y hay,
+            ih' (fun z hz => hsub z (List.mem_cons_of_mem _ hz))]
+      exact this items cs (fun _ ha => ha) hf
+    simp only [refTyped, hc, h1, Option.map_some, mkColl, shapeOf, shapeOfL_eq]
+  | featureCollection ms r items h hc hw ih =>
+    intro n x hx
+    obtain ⟨m, _, rfl, _⟩ := parse_ok_isObj hx
+    rw [parse_of_type h] at hx
+    obtain ⟨items', cs, hg, hcs, rfl⟩ := featCollCase_ok hx
+    rw [hc] at hg; cases hg
+    rw [refShapeF_of_type h]
+    have hf := parseList_ok o m items cs hcs
+    have h1 : optAll (items.map (refShapeF m)) = some (cs.map shapeOf) := by
+      have : ∀ (l : List JVal) (ys : List Obj), (∀ a ∈ l, a ∈ items) →
+          Forall2 (fun a y => parse o m a = .ok y) l ys →
+          optAll (l.map (refShapeF m)) = some (ys.map shapeOf) := by
+        intro l ys hsub hl
+        induction hl with
+        | nil => rfl
+        | @cons a y as ys' hay _ ih' =>
+          simp only [List.map_cons, optAll, ih a (hsub a List.mem_cons_self) m y hay,
+            ih' (fun z hz => hsub z (List.mem_cons_of_mem _ hz))]
+      exact this items cs (fun _ ha => ha) hf
+    simp only [refTyped, hc, h1, Option.map_some, mkColl, shapeOf, shapeOfL_eq]
+  | feature ms r g h hc hw hcircle ih =>
+    intro n x hx
+    obtain ⟨m, _, rfl, _⟩ := parse_ok_isObj hx
+    rw [parse_of_type h] at hx
+    obtain ⟨g', b, hg, hb, hf⟩ := featureCase_ok hx
+    rw [hc] at hg; cases hg
+    rw [featureObj_noCircle hcircle] at hf
+    cases hf
+    rw [refShapeF_of_type h]
+    simp only [refTyped, hc, Option.bind_some, ih m b hb, Option.map_some, shapeOf]
+
+/-- An accepted well-formed document decodes to what it says: the type named by the last
+    "type" member, the children in document order, and for every position the x,y given by the
+    `val` fields of its first two numbers — for all options (a SimplePoint has the Point shape,
+    a Rect the shape of its five-position Polygon). -/
+theorem wf_decoded (o : POpts) (v : JVal) (x : Obj) (h : WellFormed v) (hx : parseTop o v = .ok x) :
+    refShape v = some (shapeOf x) :=
+  wf_decoded_fuel o v h _ x hx
+
+/-- what `docPoly` decodes to -/
+example : refShape docPoly = some (.polygon [[(0,0), (10,0), (10,10), (0,0)]]) := by rfl
+
+end Geo
+
 #print axioms Geo.defect_rejected
 #print axioms Geo.wf_accepted_partial
 #print axioms Geo.wf_accepted_counterexample
+#print axioms Geo.wf_decoded
